@@ -19,7 +19,8 @@ from vlib.obs import ALL_FIELDS, exc_name, obs
 POOL = ["http://example.com", "http://example.com/", "http://u:p@example.com:8080/a%2Fb/c%20d.txt?x=1&y=2#frag",
         "https://[::1]:8443/p/q.tar.gz?a=1", "http://example.com:80/x", "/a/b", "a/b", "", "?q=1", "mailto:user@example.com",
         "http://bücher.example/straße", "http://[fe80::1%25eth0]:80/", "http://example.com/a;p=1/b;q", "HTTP://EXAMPLE.com/%7efoo",
-        "http://example.com/?a=1&b=2&a=3#f", "http://h/a/../b/./c", "//example.com/a", "http://1.2.3.4:0/", "http://Ab_c.é.com/x"]
+        "http://example.com/?a=1&b=2&a=3#f", "http://h/a/../b/./c", "//example.com/a", "http://1.2.3.4:0/", "http://Ab_c.é.com/x",
+        "http://example.com:443/x", "https://example.com:80/", "ws://u@example.com:443", "ftp://example.com:80/a"]
 READ_FIELDS = [f for f in ALL_FIELDS if f not in ("val",)]
 # raw components that end in a truncated escape run / begin with a continuation byte / contain malformed escapes: reading one
 # right after another must not carry decoder state over (process-global quoter and unquoter objects are shared)
@@ -77,8 +78,17 @@ def gen_history(rnd, nsteps):
             steps.append({"k": "new", "s": rnd.choice(POOL), "encoded": rnd.random() < 0.2})
         elif r < 0.2:
             steps.append({"k": "build", "st": progs.rnd_build(rnd)})
+        elif r < 0.45:
+            steps.append({"k": "modify", "slot": rnd.randrange(1000), "st": progs.rnd_step(rnd, MOD_OPS), "ref": rnd.randrange(1000),
+                          "read_before": rnd.random() < 0.6, "read_after": rnd.random() < 0.7})
         elif r < 0.5:
-            steps.append({"k": "modify", "slot": rnd.randrange(1000), "st": progs.rnd_step(rnd, MOD_OPS), "ref": rnd.randrange(1000)})
+            # the same modifier on two URLs that compare EQUAL but are distinguishable ('' vs '/' path under an authority)
+            steps.append({"k": "eqpair", "slot": rnd.randrange(1000), "order": rnd.random() < 0.5,
+                          "st": rnd.choice([{"op": "with_port", "v": progs.tv_of(8080)}, {"op": "with_port", "v": progs.tv_of(None)},
+                                            {"op": "with_password", "v": [progs.T("pw")]}, {"op": "with_user", "v": [progs.T("usr")]},
+                                            {"op": "with_scheme", "v": progs.T("https")}, {"op": "with_fragment", "v": [progs.T("fr")]},
+                                            {"op": "with_host", "v": progs.T("other.example")},
+                                            {"op": "with_query", "q": {"form": "str", "s": progs.T("k=v"), "pairs": []}}])})
         elif r < 0.7:
             steps.append({"k": "read", "slot": rnd.randrange(1000), "fields": rnd.sample(READ_FIELDS, rnd.choice((1, 2, 4, 8)))})
         elif r < 0.75:
@@ -149,6 +159,10 @@ def run_history(yarl, steps, mode, run_id, rnd):
             elif k == "modify":
                 j = slot(st["slot"])
                 recv = pool[j]
+                if st.get("read_before"):         # fill the receiver's per-object cache first (random order)
+                    v5 = J(val5(recv))
+                    for f, v in obs(recv, READ_FIELDS).items():
+                        facts.append({"k": "acc:" + v5 + "." + f, "v": J(v)})
                 other = None
                 stp = st["st"]
                 key_extra = None
@@ -171,7 +185,22 @@ def run_history(yarl, steps, mode, run_id, rnd):
                     res, u = outcome_of(lambda: U._apply(recv, stp, other))
                 facts.append({"k": "call:" + J([stp, val5(recv), key_extra]), "v": J(canon_result(res, yarl))})
                 if u is not None and isinstance(u, yarl.URL):
+                    if st.get("read_after"):      # everything the derived URL says about itself, right away, in random order
+                        v5 = J(val5(u))
+                        for f, v in obs(u, READ_FIELDS).items():
+                            facts.append({"k": "acc:" + v5 + "." + f, "v": J(v)})
                     add(u)
+            elif k == "eqpair":
+                j = slot(st["slot"])
+                a = pool[j]
+                v = a.__getstate__()[0]
+                if v[1] and v[2] in ("", "/") :
+                    from urllib.parse import SplitResult
+                    b = yarl.URL(SplitResult(v[0], v[1], "/" if v[2] == "" else "", v[3], v[4]), encoded=True)
+                    pair = [a, b] if st["order"] else [b, a]
+                    for w in pair:
+                        res, u = outcome_of(lambda: U._apply(w, st["st"], None))
+                        facts.append({"k": "call:" + J([st["st"], val5(w), None]), "v": J(canon_result(res, yarl))})
             elif k == "read":
                 j = slot(st["slot"])
                 o = obs(pool[j], st["fields"])
